@@ -226,6 +226,8 @@ def goto_build(u, wd, tier, extra_defines=()):
     final = a1
     info["loops"] = []
     if u["mode"] == "dfcc":
+        if len(u["enforce"]) > 1:
+            raise Undecided("unit.json lists %d enforce pairs: goto-instrument --dfcc honours only ONE --enforce-contract per run (the others are silently unchecked); split the unit" % len(u["enforce"]))
         b = os.path.join(wd, "b.gb")
         cmd = ["goto-instrument", "--dfcc", "harness"]
         for f, c in u["enforce"]:
@@ -350,11 +352,47 @@ def run_unit(u, tier, keep=False, extra_defines=(), variant=""):
         res["cmds"].append(" ".join(cmd))
         outp = os.path.join(wd, "cbmc.json")
         to = u["timeout_thorough"] if tier == "thorough" else u["timeout"]
-        rc, _, err, t = run(cmd, to, mem_gb=u["mem_gb"], cwd=wd, stdout_path=outp)
-        res["solver_s"] = round(t, 2)
-        res["backend"] = u["cbmc"].get("backend", "sat(minisat2, cbmc built-in)")
-        if rc == -999:
-            raise Undecided("cbmc timeout after %ss" % to)
+        ext = u["cbmc"].get("external_smt")
+        ext_done = False
+        if ext:
+            # arithmetic lemma route: dump the whole verification condition as SMT-LIB and hand it to an
+            # external solver with options cbmc cannot pass (cvc5 --solve-bv-as-int=sum).  unsat = every
+            # obligation holds.  Anything else falls through to the SAT back end to look for a counterexample.
+            smt = os.path.join(wd, "vc.smt2")
+            dump = [c for c in cmd if c not in ("--json-ui", "--trace")] + ["--smt2", "--outfile", smt]
+            rc0, _, err0, t_dump = run(dump, 120, mem_gb=u["mem_gb"], cwd=wd)
+            res["cmds"].append(" ".join(dump))
+            if os.path.exists(smt):
+                sc = ext + [smt]
+                res["cmds"].append(" ".join(sc))
+                rc1, out1, err1, t1 = run(sc, min(to, u["cbmc"].get("external_timeout", 90)), mem_gb=u["mem_gb"], cwd=wd)
+                res["solver_s"] = round(t1, 2)
+                if out1.strip().startswith("unsat"):
+                    props = [c for c in cmd if c not in ("--trace",)] + ["--show-properties"]
+                    rc2, out2, err2, t2 = run(props, 120, mem_gb=u["mem_gb"], cwd=wd)
+                    try:
+                        pl = [o for o in json.loads(out2) if "properties" in o][0]["properties"]
+                    except Exception as e:
+                        raise Undecided("could not list properties: %r" % (e,))
+                    with open(outp, "w") as fo:
+                        json.dump([{"result": [{"property": p_["name"], "description": p_.get("description", ""), "status": "SUCCESS", "sourceLocation": p_.get("sourceLocation", {})} for p_ in pl]}, {"cProverStatus": "success"}], fo)
+                    res["backend"] = "external: " + " ".join(ext) + " on cbmc --smt2 --outfile (whole verification condition unsat)"
+                    ext_done = True
+                    rc, err = 0, ""
+                elif out1.strip().startswith("sat"):
+                    # a model of the negated verification condition: some obligation fails (no per-obligation trace)
+                    tag = " [canary run]" if "VF_CANARY" in extra_defines else ""
+                    with open(outp, "w") as fo:
+                        json.dump([{"result": [{"property": "external_smt.vc", "description": "external solver found the verification condition falsifiable: some obligation of this lemma unit fails" + tag + (" canary" if tag else ""), "status": "FAILURE"}]}, {"cProverStatus": "failure"}], fo)
+                    res["backend"] = "external: " + " ".join(ext) + " (sat)"
+                    ext_done = True
+                    rc, err = 10, ""
+        if not ext_done:
+            rc, _, err, t = run(cmd, to, mem_gb=u["mem_gb"], cwd=wd, stdout_path=outp)
+            res["solver_s"] = round(t, 2)
+            res["backend"] = u["cbmc"].get("backend", "sat(minisat2, cbmc built-in)")
+            if rc == -999:
+                raise Undecided("cbmc timeout after %ss" % to)
         status, results, msgs, perr = parse_cbmc_json(outp)
         if perr or status is None or not results:
             tail = ""
@@ -499,7 +537,7 @@ def gen_native(contracts, replaced_names=()):
         rett = "int" if c["ret"] == "void" else c["ret"]
         g.append("static void %s__chk(int vf_phase, %s vf_ret, %s)\n{" % (c["name"], rett, c["params"]))
         for name, inner in olds:
-            g.append("\tstatic __typeof__(%s) %s;" % (inner, name))
+            g.append("\tstatic __typeof__((%s) + 0) %s;   /* +0: works for bit-fields too */" % (inner, name))
         g.append("\t(void)vf_ret;")
         g += ["\t" + r for r in req]
         for name, inner in olds:
